@@ -143,7 +143,9 @@ func (r Registry) resolveImportConflict(a, b *Package, lvl int) {
 		return
 	}
 
-	for _, p := range []*Package{a, b} {
+	// b first: it is already registered and has to give up the contested name
+	// before a may claim it (a single-element path like "sync" never changes).
+	for _, p := range []*Package{b, a} {
 		name := p.uniqueName(lvl)
 		// Even though the name is not conflicting with the other package we
 		// got, the new name we want to pick might already be taken. So check
